@@ -181,8 +181,25 @@ def sreg_read_your_writes(E):
     E.prove('sreg:frame', L.Implies(b != a, L.at(new, b) == L.at(old, b)))
 
 
+def storage_lemma(E):
+    """tables shared or separate: two blocks are one table exactly when they are the same block object.  Two blocks CONSTRUCTED from the same
+    list of initial values are separate tables - a write through one is not seen through the other and does not reach the caller's list"""
+    init = E.ints('initial_values', 0, 65536, 1, 64)
+    a = E.int('start', 0, 1000)
+    snapshot = E.clone(init)
+    b1 = E.new(S.SEQ, a, init)
+    b2 = E.new(S.SEQ, a, init)
+    j, v = E.int('offset', 0, 64), E.int('value', 0, 65536)
+    E.assume(j < L.length(init))
+    before2 = E.clone(b2)
+    E.method(b1, 'setValues', a + j, [v])
+    E.prove('storage:a-write-to-one-block-is-seen-in-that-block', L.at(E.get(b1, 'values'), j) == v)
+    E.prove('storage:the-other-block-built-from-the-same-list-is-untouched', E.same_state(b2, before2))
+    E.prove('storage:the-callers-list-is-untouched', L.eq(init, snapshot))
+
+
 def get_units():
-    us = []
+    us = [Unit('C04/layout.blocks-own-their-storage', storage_lemma, ['C04'], functions=[S.SEQ + '.__init__', S.SEQ + '.setValues'])]
     for fc in (1, 2, 3, 4):
         us.append(Unit('C04/fc%02d.read' % fc, read_lemma(fc), ['C04'], contracts=CONTRACTS, functions=[M.REQ[fc] + '.execute']))
     for fc in (5, 6):
